@@ -3,7 +3,8 @@
    (jointly one map for matched input).  Integers are unbounded in the model: after the repairs
    (pair code in 64 bit, LUT widening, crop by logical-or) the code computes no label in a fixed
    width; the dtype-dependence of the implementation is decided by correspondence. *)
-From Pan Require Import Base.Common Model.MetricTable Model.Metrics Model.Matcher Proofs.Matching Proofs.MatcherQ Proofs.Invariance.
+From Pan Require Import Base.Common Base.Rnd64 Model.MetricTable Model.Metrics Model.Matcher Model.EdgeCase Model.Result Model.Relabel Model.Pipeline
+  Proofs.Matching Proofs.MatcherQ Proofs.C04Proofs Proofs.Invariance Proofs.ResultEquiv Proofs.RenameInvariance Proofs.RenameUnmatched.
 Open Scope Z_scope.
 
 (* every per-pair overlap metric is unchanged by the renaming *)
@@ -45,3 +46,65 @@ Example C09_nonvacuous :
   iou (Some (sr 1, [sp 1])) (rename sr sp a) = iou (Some (1, [1])) a /\
   overlap_pairs (rename sr sp a) = [(255, 3); (70000, 3); (70000, 16777215)] /\ overlap_pairs a = [(1, 1); (1, 2); (2, 2)].
 Proof. vm_compute. repeat split; reflexivity. Qed.
+
+(* ---- the whole evaluation ----
+   [result_equiv]: the same counts, precision/recall/rq, and per metric the per-instance list permuted,
+   average, variance and pq equal as rationals.  [inj_on f l]: f is injective on the values in l (the labels
+   that occur, and the background 0).  [x], [x']: the geometric metric values (ASSD, clDice) supplied for
+   the instances of the two runs; they are required to agree on corresponding instances. *)
+
+(* matched input: one renaming for both arrays; no tie hypothesis (there is no matching step) *)
+Theorem C09_matched_input_pipeline_invariant : forall s a x x' c, c_matcher c = 0 ->
+  inj_on s (0 :: map fst a ++ map snd a) -> s 0 = 0 ->
+  (forall m l, In l (matched_labels a) -> x_inst x' m (s l) = x_inst x m l) ->
+  res_rel result_equiv (pipeline x c a) (pipeline x' c (rename s s a)).
+Proof. exact pipeline_matched_rename. Qed.
+
+(* matched arrays renamed by two maps that agree exactly on the matched labels (evaluation phase of any input type) *)
+Theorem C09_evaluation_phase_invariant : forall sr sp a x x' c,
+  inj_on sr (0 :: map fst a) -> inj_on sp (0 :: map snd a) -> sr 0 = 0 -> sp 0 = 0 ->
+  (forall r p, In r (ref_labels_of a) -> In p (pred_labels_of a) -> (sr r = sp p <-> r = p)) ->
+  (forall m l, In l (matched_labels a) -> x_inst x' m (sp l) = x_inst x m l) ->
+  res_rel result_equiv (eval_phase x c a) (eval_phase x' c (rename sr sp a)).
+Proof. exact eval_phase_rename. Qed.
+
+(* unmatched input, threshold matcher (one-to-one or many-to-one): independent renamings of the reference and
+   the prediction labels; the matching must be determined (competing candidates meeting the threshold have
+   distinct scores) -- with a tie, which of the tied pairs is matched depends on the label order *)
+Theorem C09_unmatched_input_pipeline_invariant : forall sr sp a x x' c,
+  nonneg_arr a -> nonneg_arr (rename sr sp a) -> (c_matcher c = 1 \/ c_matcher c = 2) ->
+  inj_on sr (0 :: map fst a) -> inj_on sp (0 :: map snd a) -> sr 0 = 0 -> sp 0 = 0 ->
+  (forall rp, In rp (overlap_pairs a) -> x_pair x' (sr (fst rp), sp (snd rp)) = x_pair x rp) ->
+  (forall m l, In l (ref_labels_of a) -> x_inst x' m (sr l) = x_inst x m l) ->
+  competing_distinct Q (better_eq (decreasing (c_mmetric c))) (fun s => beats (decreasing (c_mmetric c)) s (c_mthr c))
+    (c_matcher c =? 2) (cand_list x (c_mmetric c) a) ->
+  res_rel result_equiv (pipeline x c a) (pipeline x' c (rename sr sp a)).
+Proof. exact pipeline_naive_rename. Qed.
+
+(* non-vacuity of the pipeline theorem: a pair with two matches, a rejected candidate and a spurious prediction;
+   reference labels 1,2 -> 70000,255, prediction labels 1,2,3 -> 3,16777215,1 *)
+Definition ex_a : arr2 := [(1, 1); (1, 1); (1, 2); (2, 2); (2, 2); (0, 3)].
+Definition ex_sr (v : Z) : Z := if v =? 1 then 70000 else if v =? 2 then 255 else v.
+Definition ex_sp (v : Z) : Z := if v =? 1 then 3 else if v =? 2 then 16777215 else if v =? 3 then 1 else v.
+Definition ex_x : ext := {| x_inst := fun _ _ => 0%Q; x_pair := fun _ => 0%Q; x_union := fun _ _ => 0%Q |}.
+Definition ex_c : cfg := {| c_matcher := 1; c_mmetric := IOU; c_mthr := (1 # 2)%Q; c_ems := [IOU; DSC]; c_dm := None; c_dthr := None;
+                            c_handler := default_handler |}.
+Example C09_pipeline_nonvacuous :
+  nonneg_arr ex_a /\ nonneg_arr (rename ex_sr ex_sp ex_a) /\ inj_on ex_sr (0 :: map fst ex_a) /\ inj_on ex_sp (0 :: map snd ex_a) /\
+  competing_distinct Q (better_eq false) (fun s => beats false s (1 # 2)%Q) false (cand_list ex_x IOU ex_a) /\
+  (exists r, pipeline ex_x ex_c ex_a = Ok r /\ o_tp r = 2 /\ o_fp r = 1 /\ o_fn r = 0) /\
+  (exists r, pipeline ex_x ex_c (rename ex_sr ex_sp ex_a) = Ok r /\ o_tp r = 2 /\ o_fp r = 1 /\ o_fn r = 0).
+Proof.
+  assert (Hnn : forall l : arr2, forallb (fun v => (0 <=? fst v) && (0 <=? snd v)) l = true -> nonneg_arr l).
+  { intros l H v Hv. rewrite forallb_forall in H. specialize (H v Hv). lia. }
+  assert (Hinj : forall f l, forallb (fun u => forallb (fun v => implb (f u =? f v) (u =? v)) l) l = true -> inj_on f l).
+  { intros f l H u v Hu Hv E. rewrite forallb_forall in H. specialize (H u Hu). rewrite forallb_forall in H. specialize (H v Hv).
+    rewrite E, Z.eqb_refl in H. cbn in H. lia. }
+  split; [apply Hnn; reflexivity|]. split; [apply Hnn; reflexivity|]. split; [apply Hinj; reflexivity|]. split; [apply Hinj; reflexivity|].
+  split.
+  - intros u v Hu Hv Bu Bv Hcf Hne. vm_compute in Hu, Hv.
+    destruct Hu as [<-|[<-|[<-|[]]]]; destruct Hv as [<-|[<-|[<-|[]]]];
+      try (vm_compute in Bu; discriminate); try (vm_compute in Bv; discriminate); try (vm_compute in Hcf; discriminate);
+      exfalso; apply Hne; reflexivity.
+  - split; eexists; (split; [vm_compute; reflexivity|cbn; auto]).
+Qed.
